@@ -93,6 +93,16 @@ class Run(object):
             for k in self.idx:
                 self.idx[k].clear()
             return OK
+        if n in ("localha", "localname", "localuid"):
+            # the local device is re-keyed through the stack's public setter (to a key no remote holds: the setters
+            # do not validate, and the statement is about operations on remotes) -- afterwards "the local device's
+            # key" is the new one, the old one is free
+            which = {"localha": "ha", "localname": "name", "localuid": "uid"}[n]
+            if op[1] in self.idx[which]:
+                return REJECT        # the harness raises LookupError itself, nothing reaches the stack
+            lu, ln, lh = self.local
+            self.local = {"uid": (op[1], ln, lh), "name": (lu, op[1], lh), "ha": (lu, ln, op[1])}[which]
+            return OK
         d = self.mslots.get(op[1])
         if d is None:
             return REJECT            # the harness raises LookupError itself, nothing reaches the stack
@@ -158,6 +168,12 @@ class Run(object):
             return None
         if n == "removeAll":
             return st.removeAllRemotes()
+        if n in ("localha", "localname", "localuid"):
+            index = {"localha": st.haRemotes, "localname": st.nameRemotes, "localuid": st.remotes}[n]
+            if op[1] in index:
+                raise LookupError("key held by a remote")
+            setattr(st, {"localha": "ha", "localname": "name", "localuid": "uid"}[n], op[1])
+            return None
         d = self.slots.get(op[1])
         if d is None:
             raise LookupError("empty slot")
@@ -242,7 +258,10 @@ class Spec(object):
     def random_op(self, rng):
         slot = rng.choice(SLOTS)
         n = rng.choice(["new", "add", "add", "add", "move", "move", "rename", "rename", "reha", "reha", "remove",
-                        "removeAll"])
+                        "removeAll", "local"])
+        if n == "local":
+            k = rng.choice(["localha", "localha", "localname", "localuid"])
+            return [k, rng.choice({"localha": ["h0", "h9", "h1"], "localname": ["local", "other", "r2"], "localuid": [1, 5, 2]}[k])]
         if n == "new":
             uid = rng.choice(UIDS + [None, None])
             return [n, slot, uid, rng.choice(NAMES + [None]), rng.choice(HAS + [None])]
@@ -261,7 +280,8 @@ class Spec(object):
                 ["new", "B", 3, "r2", "h2"], ["new", "B", 3, "r3", "h1"], ["new", "B", None, None, "h2"],
                 ["add", "A"], ["add", "B"], ["move", "A", 3], ["move", "A", 1], ["move", "B", 2],
                 ["rename", "A", "r3"], ["rename", "A", "local"], ["reha", "A", "h2"], ["reha", "B", "h0"],
-                ["remove", "A"], ["remove", "B"], ["removeAll"]]
+                ["remove", "A"], ["remove", "B"], ["removeAll"], ["localha", "h9"], ["localha", "h0"], ["reha", "A", "h9"],
+                ["reha", "A", "h0"]]
 
     def full_alphabet(self):
         al = []
@@ -274,7 +294,8 @@ class Spec(object):
             al += [["move", slot, u] for u in UIDS]
             al += [["rename", slot, x] for x in NAMES]
             al += [["reha", slot, x] for x in HAS]
-        al += [["removeAll"], ["add", "C"]]
+        al += [["removeAll"], ["add", "C"], ["localha", "h9"], ["localha", "h0"], ["localname", "other"], ["localuid", 5],
+               ["reha", "A", "h9"], ["rename", "A", "other"], ["move", "A", 5]]
         return al
 
 
